@@ -6,7 +6,7 @@
      parseMSNPart                      (muxer.go)    -> parseMSNPart
      queryVal                          (muxer.go)    -> queryVal
      filterOutHLSParams          (muxer_stream.go)   -> filterOutHLSParams
-     muxerStream.hasContent / hasPart                -> hasContent / hasPart (+ hasPart_loop)
+     muxerStream.hasContent / hasPart                -> hasContent / hasPart
      the range check of handleMediaPlaylist          -> range_reject   (uint64 wrap written out)
      handleMediaPlaylist, part before the mutex      -> handleMediaPlaylist_pre
      generateMediaPlaylistFMP4 / MPEGTS              -> generateMediaPlaylistFMP4 / MPEGTS
@@ -81,13 +81,10 @@ Fixpoint queryVal (q : query) (key : string) : string :=
 Definition hls_key (i : qitem) : bool :=
   match i with QPair k _ => prefix "_HLS_" k | QBad => false end.
 
-(* the result is a multiset of tokens (url.Values.Encode sorts by key) *)
+(* q, _ := url.ParseQuery(rawQuery): what can be parsed is kept, the rest dropped, as
+   r.URL.Query() does; the result is a multiset of pairs (url.Values.Encode sorts by key) *)
 Definition filterOutHLSParams (rawQuery : query) : query :=
-  match rawQuery with
-  | [] => rawQuery
-  | _ => if parse_error rawQuery then rawQuery
-         else filter (fun i => negb (hls_key i)) rawQuery
-  end.
+  filter (fun i => negb (hls_key i) && negb (is_bad i)) rawQuery.
 
 (* ---------- abstract muxer state ---------- *)
 Inductive seg :=
@@ -162,27 +159,26 @@ Definition hasContent (v : variant) (s : stream) : bool :=
   | _ => 1 <=? zlen (segments s)
   end.
 
-(* the range loop of hasPart; [continue] goes on with the NEXT element and the modified
-   segmentID / partID; falling off the end of the loop returns false *)
-Fixpoint hasPart_loop (segs : list seg) (segmentID partID : Z) : bool :=
-  match segs with
-  | [] => false
-  | Gap _ :: r => hasPart_loop r segmentID partID
-  | Seg id parts _ :: r =>
-      if segmentID =? id then
-        if zlen parts <=? partID then hasPart_loop r (u64 (segmentID + 1)) 0
-        else true
-      else hasPart_loop r segmentID partID
-  end.
-
-(* None = Go panics: type assertion on a nil nextSegment *)
+(* hasPart: the window is indexed by position (listed segments and gaps are numbered
+   consecutively, the open segment follows them). None = Go panics: index out of range, or
+   type assertion on a nil nextSegment *)
 Definition hasPart (s : stream) (segmentID partID : Z) : option bool :=
-  if segmentID =? nextSegmentID s then
-    match nextSegment s with
-    | None => None
-    | Some ps => Some (partID <? zlen ps)
-    end
-  else Some (hasPart_loop (segments s) segmentID partID).
+  let open (p : Z) := match nextSegment s with
+                      | None => None
+                      | Some ps => Some (p <? zlen ps)
+                      end in
+  if negb (segmentID =? nextSegmentID s) then
+    let first := u64 (nextSegmentID s - u64 (zlen (segments s))) in
+    if (segmentID <? first) || (nextSegmentID s <? segmentID) then Some false
+    else match nth_error (segments s) (Z.to_nat (segmentID - first)) with
+         | None => None
+         | Some (Gap _) => Some true
+         | Some (Seg _ parts _) =>
+             if partID <? zlen parts then Some true
+             else if negb (u64 (segmentID + 1) =? nextSegmentID s) then Some true
+                  else open 0
+         end
+  else open partID.
 
 (* msnint > s.nextSegmentID+1 || msnint < s.nextSegmentID-uint64(len(s.segments)-1) *)
 Definition range_reject (s : stream) (msnint : Z) : bool :=
@@ -191,25 +187,30 @@ Definition range_reject (s : stream) (msnint : Z) : bool :=
 
 Inductive decision := Respond400 | Ready | Block | DPanic.
 
-(* one iteration of the wait loop of the blocking branch, after the s.closed test *)
-Definition decide_core (v : variant) (s : stream) (msnint partint : Z) : decision :=
+(* one iteration of the wait loop of the blocking branch, after the s.closed test; P = None when
+   _HLS_part is absent or empty: the request is then for the complete segment
+     s.hasContent() && ((part != "" && s.hasPart(msnint, partint)) || (part == "" && msnint < s.nextSegmentID)) *)
+Definition decide_core (v : variant) (s : stream) (msnint : Z) (P : option Z) : decision :=
   if range_reject s msnint then Respond400
   else if hasContent v s then
-         match hasPart s msnint partint with
-         | None => DPanic
-         | Some true => Ready
-         | Some false => Block
+         match P with
+         | Some partint =>
+             match hasPart s msnint partint with
+             | None => DPanic
+             | Some true => Ready
+             | Some false => Block
+             end
+         | None => if msnint <? nextSegmentID s then Ready else Block
          end
        else Block.
 
 (* the request as the property states it: _HLS_msn=M, optional _HLS_part=P *)
-Definition decide (v : variant) (s : stream) (M : Z) (P : option Z) : decision :=
-  decide_core v s M (match P with Some p => p | None => 0 end).
+Definition decide (v : variant) (s : stream) (M : Z) (P : option Z) : decision := decide_core v s M P.
 
 (* handleMediaPlaylist up to the point where it takes the mutex *)
 Inductive mkind :=
 | MK400                                    (* 400 without touching the mutex *)
-| MKBlocking (msnint partint : Z) (delta : bool)
+| MKBlocking (msnint : Z) (P : option Z) (delta : bool)
 | MKPlain (delta : bool).
 
 Definition handleMediaPlaylist_pre (v : variant) (q : query) : mkind :=
@@ -222,7 +223,8 @@ Definition handleMediaPlaylist_pre (v : variant) (q : query) : mkind :=
       match parseMSNPart msn part with
       | None => MK400
       | Some (msnint, partint) =>
-          if negb (is_empty msn) then MKBlocking msnint partint delta
+          if negb (is_empty msn)
+          then MKBlocking msnint (if is_empty part then None else Some partint) delta
           else if negb (is_empty part) then MK400
           else MKPlain delta
       end
@@ -433,7 +435,8 @@ Definition stream_rotateSegments (v : variant) (segmentCount : Z) (leading : boo
                s_closed := s_closed s1 |}, t3, (i, sid + 1) :: fs3)
   end.
 
-(* muxerStream.close: every window segment's file and the open segment's file are removed *)
+(* muxerStream.close: every window segment's file and the open segment's file are removed
+   (the closed flag is set by Muxer.Close, under the mutex) *)
 Fixpoint remove_segment_files (fs : list (nat * Z)) (i : nat) (segs : list seg) : list (nat * Z) :=
   match segs with
   | [] => fs
@@ -442,9 +445,7 @@ Fixpoint remove_segment_files (fs : list (nat * Z)) (i : nat) (segs : list seg) 
   end.
 
 Definition stream_close (i : nat) (s : stream) (fs : list (nat * Z)) : stream * list (nat * Z) :=
-  ({| nextSegmentID := nextSegmentID s; nextPartID := nextPartID s; segments := segments s;
-      nextSegment := nextSegment s; segmentDeleteCount := segmentDeleteCount s;
-      targetDuration := targetDuration s; s_closed := true |},
+  (s,
    let fs1 := remove_segment_files fs i (segments s) in
    match nextSegment s with
    | None => fs1
@@ -462,8 +463,15 @@ Definition set_streams (m : mux) (ss : list stream) (t : ptable) (fs : list (nat
   {| m_variant := m_variant m; m_segmentCount := m_segmentCount m; m_streams := ss;
      m_leading := m_leading m; m_closed := m_closed m; m_paths := t; m_files := fs |}.
 
+Definition stream_set_closed (s : stream) : stream :=
+  {| nextSegmentID := nextSegmentID s; nextPartID := nextPartID s; segments := segments s;
+     nextSegment := nextSegment s; segmentDeleteCount := segmentDeleteCount s;
+     targetDuration := targetDuration s; s_closed := true |}.
+
+(* m.closed = true; for _, stream := range m.streams { stream.closed = true } *)
 Definition set_closed (m : mux) : mux :=
-  {| m_variant := m_variant m; m_segmentCount := m_segmentCount m; m_streams := m_streams m;
+  {| m_variant := m_variant m; m_segmentCount := m_segmentCount m;
+     m_streams := map stream_set_closed (m_streams m);
      m_leading := m_leading m; m_closed := true; m_paths := m_paths m; m_files := m_files m |}.
 
 Definition mux_createFirstSegment (m : mux) : mux :=
